@@ -144,7 +144,7 @@ Definition str_of_cursor (c : cursor) : str :=
 Inductive stype := TStore | TAnnotation | TDataSet | TData | TKey | TValue | TResource
                  | TTextSelection | TTextSelectionSet | TConfig | TSubStore.
 
-Definition type_table : list (str * stype) :=
+Definition type_table : list (str * stype) := Eval vm_compute in
   [ (lit "annotationstore", TStore); (lit "store", TStore);
     (lit "annotation", TAnnotation); (lit "annotations", TAnnotation);
     (lit "annotationdataset", TDataSet); (lit "dataset", TDataSet); (lit "annotationset", TDataSet);
@@ -177,7 +177,7 @@ Definition str_of_type (t : stype) : str :=
 Inductive skind := KResource | KAnnotation | KText | KDataSet | KDataKey | KData
                  | KMulti | KComposite | KDirectional.
 
-Definition kind_table : list (str * skind) :=
+Definition kind_table : list (str * skind) := Eval vm_compute in
   [ (lit "ResourceSelector", KResource); (lit "resourceselector", KResource); (lit "resource", KResource);
     (lit "AnnotationSelector", KAnnotation); (lit "annotationselector", KAnnotation); (lit "annotation", KAnnotation);
     (lit "TextSelector", KText); (lit "textselector", KText); (lit "text", KText);
@@ -208,7 +208,7 @@ Definition kind_is_complex (k : skind) : bool :=
 
 Inductive dformat := FJson (compact : bool) | FCbor | FCsv.
 
-Definition format_table : list (str * dformat) :=
+Definition format_table : list (str * dformat) := Eval vm_compute in
   [ (lit "json", FJson false); (lit "Json", FJson false); (lit "JSON", FJson false);
     (lit "json-compact", FJson true); (lit "Json-compact", FJson true); (lit "JSON-compact", FJson true);
     (lit "cbor", FCbor);
@@ -567,14 +567,22 @@ Fixpoint ds_include (old : bool) (stack : nat) (depth : nat) (files : list (opti
 
 (* from_cbor_file = minicbor::decode: the shape is checked by the derived decoders, handles
    and indices are taken from the file as they are.  Abstract content that matters here:
-   the number of resources and the resource handle of every annotation's ResourceSelector. *)
-Record cstore := { cs_nres : N; cs_targets : list N }.
+   the number of text selections of the resource, the text selection handle in the
+   TextSelector of every annotation, and the reverse index (text selection, annotation)
+   that the file carries along. *)
+Record cstore := { cs_n : N; cs_targets : list N; cs_rev : list (N * N) }.
 
 Definition cbor_load (s : cstore) : outcome cstore := Ok s.
 
-Definition cbor_sane (s : cstore) : bool := forallb (fun h => h <? cs_nres s) (cs_targets s).
+Fixpoint cs_ok (n : N) (rev : list (N * N)) (a : N) (targets : list N) : bool :=
+  match targets with
+  | [] => true
+  | t :: ts => (t <? n) && existsb (fun p => (fst p =? t) && (snd p =? a)) rev && cs_ok n rev (a + 1) ts
+  end.
+Definition cbor_sane (s : cstore) : bool := cs_ok (cs_n s) (cs_rev s) 0 (cs_targets s).
 
-(* following an annotation's target through the API: get(handle).expect("... must exist") *)
+(* following the annotations through the API: get(handle).expect("... must exist"),
+   unsigned subtraction on selections that do not belong together *)
 Definition cbor_probe (s : cstore) : outcome unit := if cbor_sane s then Ok tt else Panic.
 
 (* the derived decoder of DataValue::List(Vec<DataValue>) recurses once per nesting level *)
